@@ -576,7 +576,12 @@ impl PreExp {
                     .map_err(|e| e.add_span(self.span()))?;
                 Ok(match **op {
                     UnOp::Not => Exp::Not(inner.to_box()),
-                    UnOp::Neg => Exp::UnOp(UnOp::Neg, inner.to_box()),
+                    UnOp::Neg => match inner {
+                        //a negative constant can only be written as a minus in front of a
+                        //number, it is the constant itself and not an operation on it
+                        Exp::Number(value) => Exp::Number(-value),
+                        inner => Exp::UnOp(UnOp::Neg, inner.to_box()),
+                    },
                 })
             }
             Self::Variable(name) => {
